@@ -338,7 +338,7 @@ def st_mutated():
             m = c11.TmMachine()
         else:
             m = c11.PduMachine(kind)
-        ops = {k: v for k, v in m.ops().items() if k.startswith("set_")}
+        ops = {k: v for k, v in m.ops().items() if k.startswith("set_") or k.startswith("append_")}
         step = st.one_of([st.tuples(st.just(k), v).map(list) for k, v in ops.items()])
         init = m.init_strategy()
         if kind not in ("tc", "tm"):
